@@ -7,6 +7,7 @@
 cd "$(dirname "$0")/.."
 python3 - <<'PY'
 import json,subprocess,glob,os,shutil,sys
+out='/var/tmp/refresh-out'; os.makedirs(out+'/replays/found',exist_ok=True); os.environ['VERIF_OUTDIR']=out
 kf=json.load(open('known_findings.json'))
 opens=[f for f in kf['findings'] if f['status']=='open']
 for f in opens: f['status']='refreshing'
@@ -19,9 +20,9 @@ try:
         want={f['signature']:f for f in fs}
         for seed in (1,2,3,4,5):
             if not want: break
-            for g in glob.glob('replays/found/%s-*'%prop): os.remove(g)
+            for g in glob.glob(out+'/replays/found/%s-*'%prop): os.remove(g)
             subprocess.run(['./bin/check','-p',prop,'-budget','20','-seed',str(seed)],stdout=subprocess.DEVNULL,stderr=subprocess.DEVNULL)
-            for g in glob.glob('replays/found/%s-*.json'%prop):
+            for g in glob.glob(out+'/replays/found/%s-*.json'%prop):
                 v=json.load(open(g)); sig=v['violation']['signature']
                 if sig in want:
                     shutil.copy(g,'replays/known/%s.json'%want[sig]['id']); print('refreshed',want[sig]['id'],'minimised=',v['minimised']); del want[sig]
